@@ -12,7 +12,7 @@ import (
 // C18: completion offers exactly the valid continuations.
 
 func c18Cfg(opts flags.Options) *DeclCfg {
-	types := []TypeSpec{{K: KString}, {K: KBool}, {K: KBool}, {K: KInt}, {K: KString, W: WSlice}, {K: KVocab}, {K: KVocab}, {K: KVocab, W: WSlice}, {K: KBool, W: WSlice}, {K: KFloat64}}
+	types := []TypeSpec{{K: KString}, {K: KBool}, {K: KBool}, {K: KInt}, {K: KString, W: WSlice}, {K: KVocab}, {K: KVocab}, {K: KVocab, W: WSlice}, {K: KBool, W: WSlice}, {K: KFloat64}, {K: KMode, W: WPtr}, {K: KMode, W: WPtr}}
 	return &DeclCfg{
 		MaxDepth: 3, MaxFan: 4, PCmds: 70, Types: types, OptsMin: 1, OptsMax: 4, SubGroupsMax: 1, PInline: 20, NestMax: 1,
 		PNamespace: 30, PShortOnly: 15, PLongOnly: 25, PHidden: 20, PHiddenCmd: 20, PProgAttr: 30, POptional: 15, PDesc: 40,
@@ -55,6 +55,9 @@ func vocabWith(prefix string) []string {
 func c18Run(c *Ctx) {
 	r := c.R
 	opts := flags.Options(flags.PassDoubleDash)
+	// (PassAfterNonOption is not combined with completion here: on the unchanged library completion keeps offering
+	// options and commands after the first plain word although the parser passes everything through from there -
+	// the statement does not say which of the two is "the valid continuation", so that combination is unspecified)
 	if c.K%3 == 0 {
 		opts |= flags.HelpFlag
 	}
@@ -139,7 +142,7 @@ func c18Run(c *Ctx) {
 	}
 	isVocabOpt := func(o *Opt) bool {
 		// (an optional-argument option takes its value only attached: -cV, -c=V, --name=V)
-		return o.T.K == KVocab && (!o.Optional || class != "value-separate")
+		return (o.T.K == KVocab || o.T.K == KMode) && (!o.Optional || class != "value-separate")
 	}
 	switch class {
 	case "long-partial", "bare-dashes":
